@@ -28,7 +28,7 @@ theorem same_posOne (x : Val) : x.same Spec.posOne = (!x.neg && absOne x) := by
   | fin n c e => cases n <;> simp [Val.same, posOne, absOne, Val.neg, mag_one_zero]
 
 /-- `Spec.powSpecial` for a finite y that is neither zero nor ±1 -/
-def psFin (x : Val) (yn : Bool) (yc : Nat) (ye : Int) : Option Val :=
+def psFin (m : Mode) (x : Val) (yn : Bool) (yc : Nat) (ye : Int) : Option Val :=
     match x with
     | .nan n p => some (.nan n p)
     | .inf xn =>
@@ -50,7 +50,7 @@ def psFin (x : Val) (yn : Bool) (yc : Nat) (ye : Int) : Option Val :=
               some (if k == 0 then .fin neg 1 0 else if k > 0 then .inf neg else .fin neg 0 0)
             else
               let t := k * ((yc * 10 ^ ye.toNat : Nat) : Int)
-              some (if t < Emin - 1 then .fin neg 0 0 else exactOrInfS neg 1 t)
+              some (flushOrRoundS m neg 1 t)
           else if !xn && mag yc ye == 1 / 2 && k % 2 == 0 then
             some (exactOrInfS false 1 (if yn then -(k / 2) else k / 2))
           else none
@@ -78,7 +78,7 @@ theorem powSpecial_eq (m : Mode) (x y : Val) :
       else match y with
         | .fin yn yc ye =>
           if mag yc ye == 1 && (ye.natAbs < 40) then (if yn then some (quo m posOne x) else some x)
-          else psFin x yn yc ye
+          else psFin m x yn yc ye
         | .inf yn => psInf x yn
         | .nan n p => match x with | .nan n' p' => some (.nan n' p') | _ => some (.nan n p) := by
   unfold powSpecial psFin psInf
